@@ -242,6 +242,8 @@ const std::vector<String>& ConfigWriter::GetKeywords()
 		keywords.emplace_back("ignore_on_error");
 		keywords.emplace_back("current_filename");
 		keywords.emplace_back("current_line");
+		keywords.emplace_back("debugger");
+		keywords.emplace_back("in");
 		keywords.emplace_back("apply");
 		keywords.emplace_back("to");
 		keywords.emplace_back("where");
